@@ -212,6 +212,40 @@ def gen_near_case(rnd, thorough):
     return {"hdr": hdr, "ncats": ncats, "syms": syms, "ops": ops, "family": "near-equal-constants"}
 
 
+def gen_long_case(rnd, thorough):
+    """very long multi-category genomes (hundreds of rows, more than a thousand cells, mostly distinct genes)
+    put through cse(), mutation and crossover: whatever bookkeeping an operator keeps per gene is exercised
+    far beyond the sizes of the fixtures (32 rows) and of the default environment (100 rows)"""
+    ncats = rnd.choice([3, 3, 4])
+    R = rnd.randint(420, 560)
+    patch = rnd.randint(1, 3)
+    syms = []
+    for c in range(ncats):
+        # low categories: few plain terminals (equal genes on many rows); high ones: constants that are all different
+        syms.append((c, "t", 1.0, []))                 # one plain terminal: equal genes on many rows
+        syms.append((c, "f", 1.0, [c, c]))
+        lower = [x for x in range(ncats) if x < c] or [c]
+        syms.append((c, "f", 2.0, [rnd.choice(lower), c]))
+        syms.append((c, "f", 2.0, [rnd.choice(lower), rnd.choice(lower), c]))
+    rnd.shuffle(syms)
+    nslots = 2
+    ops = [["N", "0"], ["N", "1"], ["C", "0"], ["C", "1"]]
+    for _ in range(1 if not thorough else rnd.randint(2, 4)):
+        k = rnd.randrange(nslots)
+        r = rnd.random()
+        if r < 0.4:
+            ops.append(["M", str(k), dhex(rnd.choice([0.05, 0.3]))])
+        elif r < 0.7:
+            fl = rnd.randrange(4)
+            ops += [["F", "0", str(fl)], ["F", "1", str(fl)], ["X", "0", "1", str(k)]]
+        else:
+            ops.append(["N", str(k)])
+        ops.append(["C", str(k)])
+    ops.append(["W", str(rnd.randrange(nslots))])
+    hdr = ["I", str(rnd.randrange(1, 2**31)), str(R), str(patch), "1", str(nslots)]
+    return {"hdr": hdr, "ncats": ncats, "syms": syms, "ops": ops, "family": "long-genomes"}
+
+
 def witness_case():
     """the individual of Props/Refuted_C02.v (C02_cse_pinned_comparator_wf_refuted), built cell by cell with
     replace and put through cse(): the pinned comparator prints [2,1] G 2 (its own row), the repaired one G 3"""
@@ -481,6 +515,8 @@ def run(ck):
         for _ in range(nv):
             cases.append(gen_case(rnd, ck.thorough, {"vary": True, "team": rnd.random() < 0.25}))
         n += nv
+        for _ in range(3 if not ck.thorough else 30):
+            cases.append(gen_long_case(rnd, ck.thorough))
         n += len([c for c in cases if c.get("family")])
         while len(cases) < n:
             cases.append(gen_case(rnd, ck.thorough))
